@@ -137,7 +137,7 @@ class Executor:
             return z3.BoolVal(len(v.items) > 0)
         if isinstance(v, VRef):
             o = state.heap[v.oid]
-            if o.kind in ("list", "dict", "barray"):
+            if o.kind in ("list", "dict", "barray", "alist"):
                 return self.length(state, v).t > 0
             return z3.BoolVal(True)
         if isinstance(v, VSym):
@@ -358,7 +358,7 @@ class Executor:
                     if o.d is not None:
                         return VInt(len(o.d))
                     return VInt(o.fields["__len__"].t)
-                if o.kind == "barray":
+                if o.kind in ("barray", "alist"):
                     return VInt(o.n)
             if isinstance(a, VDyn):
                 return pyval.length(self, state, a)
@@ -892,7 +892,7 @@ class Executor:
                     return self.module_const(state, c.module, c.name + "." + attr, ex)
             if o.kind == "exc" and attr == "args":
                 return o.fields.get("args", VTuple([]))
-            if o.kind in ("list", "dict", "barray"):
+            if o.kind in ("list", "dict", "barray", "alist"):
                 return VFunc("builtin", o.kind + "." + attr, self_val=a)
             if o.kind in ("inst",) and o.shape is not None:
                 ext = self.reg.virtual_method(o.shape, attr)
@@ -905,6 +905,8 @@ class Executor:
         if isinstance(a, VSym):
             if attr == "addr" and self.spec_mode:
                 return VInt(a.t)        # the record's address (spec language only)
+            if attr == "__class__":
+                return VOpaque("class_of_record")
             sh = self.reg.shapes.get(a.shape)
             if sh is not None and attr not in sh.fields:
                 ext = sh.methods.get(attr)
